@@ -1,6 +1,7 @@
 import ClaripyProofs.Lemmas.Str.Numeral
 import ClaripyProofs.Lemmas.Str.CodecOut
 import ClaripyProofs.Lemmas.FP.Encoded
+import ClaripyProofs.Lemmas.FP.ExtractF
 /-!
 # C26 — values extracted from models are the values the model holds
 
@@ -45,26 +46,20 @@ theorem fp_encoded_ok (b : Nat) :
     (isNaN binary32 b = false → abstractFpEncodedVal binary32 b = b % 2 ^ 32) :=
   ⟨encoded_eq binary64 (by decide) b, encoded_eq binary32 (by decide) b⟩
 
-/-- floats, value path: full statement — the Python float computed as `sign * float(sig) * 2**exp`, packed in the sort's
-format, is the bit pattern of the numeral (NaN as NaN) -/
-def fp_extract_full : Prop :=
-  ∀ (f : Fmt), (f = binary32 ∨ f = binary64) → ∀ b, b < 2 ^ f.width → isNaN f b = false →
-    Fold.lower f (abstractFpVal f b) = b
+/-- FLOATS, value path (`_abstract_fp_val`): the Python float computed as `fp_sign * float(sig_string) * 2**fp_exp` — three
+binary64 round-to-nearest operations, each of which is proved exact — packed in the sort's format, is the bit pattern of the
+numeral: for EVERY non-NaN value of binary64 and binary32 (zeros, subnormals, normals, infinities). -/
+theorem fp_extract_ok :
+    (∀ b, b < 2 ^ 64 → isNaN binary64 b = false → abstractFpVal binary64 b = b) ∧
+    (∀ b, b < 2 ^ 32 → isNaN binary32 b = false → Fold.lower binary32 (abstractFpVal binary32 b) = b) :=
+  ⟨abstractFpVal_D, abstractFpVal_F⟩
 
-/-- proved part: zeros, infinities and NaN (by case).  Missing for the full statement: the finite non-zero case, which needs
-"rounding a representable value is the identity" for the three binary64 operations — see `Claripy.Props.C02` round lemmas;
-meanwhile it is checked on every boundary pattern and thousands of random patterns against the real function on each run
-and on the samples below inside Lean. -/
-theorem fp_extract_partial :
-    (∀ b, isNaN binary64 b = true → isNaN binary64 (abstractFpVal binary64 b) = true) ∧
-    abstractFpVal binary64 0 = 0 ∧ abstractFpVal binary64 0x8000000000000000 = 0x8000000000000000 ∧
-    abstractFpVal binary64 0x7FF0000000000000 = 0x7FF0000000000000 ∧
-    abstractFpVal binary64 0xFFF0000000000000 = 0xFFF0000000000000 ∧
-    Fold.lower binary32 (abstractFpVal binary32 0x80000000) = 0x80000000 ∧
-    Fold.lower binary32 (abstractFpVal binary32 0x7F800000) = 0x7F800000 := by
-  refine ⟨?_, by decide, by decide, by decide, by decide, by decide, by decide⟩
-  intro b hb
-  unfold abstractFpVal; simp only [hb, if_true]; decide
+/-- NaN comes back as NaN (its payload is unspecified) -/
+theorem fp_extract_nan (f : Fmt) (b : Nat) (h : isNaN f b = true) : isNaN binary64 (abstractFpVal f b) = true := by
+  unfold abstractFpVal; simp only [h, if_true]; decide
+
+example : abstractFpVal binary64 1 = 1 ∧ Fold.lower binary32 (abstractFpVal binary32 0x807FFFFF) = 0x807FFFFF :=
+  ⟨fp_extract_ok.1 1 (by decide) (by decide), fp_extract_ok.2 _ (by decide) (by decide)⟩
 
 /-- bounded: subnormals, extremes and ties of both formats reconstruct exactly -/
 theorem test_fp_extract_samples :
